@@ -264,4 +264,102 @@ theorem readLoop_spec (cap : Nat) (last tail : Bytes) (hl : LastOK cap last) (fu
             simp at hx
             exact absurd hx.1 hd0
 
+/-! ### `body` over the chunked reader, with the trailer section -/
+
+/-- `readTrailer` consumes the trailer section `tail = <section> ++ rest` and yields `t`. -/
+def TrailerOK (cap : Nat) (tail rest : Bytes) (t : Option Trailer) : Prop :=
+  ∀ b : Bufio, b.rem = tail → b.WF → b.Fits → b.cap = cap →
+    ∃ b', readTrailer b = (.ok t, b') ∧ b'.rem = rest
+
+/-- No trailer fields: the section is just CRLF. -/
+theorem trailerOK_empty (cap : Nat) (hcap : 2 ≤ cap) (rest : Bytes) :
+    TrailerOK cap (13 :: 10 :: rest) rest none := by
+  intro b hrem hw hf hc
+  obtain ⟨b1, hp, hrem1, _, _, _, _, hbuf⟩ := Bufio.peek_spec b 2 hw hf (by rw [hrem]; simp) (by omega)
+  refine ⟨b1.discardBuffered 2, ?_, ?_⟩
+  · unfold readTrailer
+    rw [hp, hrem]
+    have : (([13, 10] : Bytes) == [13, 10]) = true := by decide
+    simp [this]
+  · simp only [Bufio.discardBuffered, Bufio.rem] at hrem1 ⊢
+    have : b1.buf.drop 2 ++ b1.net.segs.flatten = (b1.buf ++ b1.net.segs.flatten).drop 2 := by
+      rw [List.drop_append_of_le_length hbuf]
+    have hrem0 : b.buf ++ b.net.segs.flatten = 13 :: 10 :: rest := hrem
+    rw [this, hrem1, hrem0]
+    simp
+
+/-- Between two reads of a chunked body: the reader stands at a position of the wire, no
+error yet, trailers still to be read. -/
+def ChunkRel (cap : Nat) (last tail : Bytes) (bd : H1Body) (E : Bytes) : Prop :=
+  ∃ cr, bd.src = .chunked cr ∧ cr.err = none ∧ CPos cap last tail cr bd.br.rem E ∧
+    bd.hdr = true ∧ bd.sawEOF = false ∧ bd.closed = false ∧ bd.br.WF ∧ bd.br.Fits ∧ bd.br.cap = cap
+
+theorem posWeight_le (cr : Chunked) : posWeight cr ≤ 4 := by
+  unfold posWeight; split <;> (try split) <;> (try split) <;> omega
+
+/-- One `Read` of a chunked body. -/
+theorem chunked_read (cap : Nat) (last tail rest : Bytes) (t : Option Trailer)
+    (hl : LastOK cap last) (ht : TrailerOK cap tail rest t)
+    (bd : H1Body) (E : Bytes) (k : Nat) (hrel : ChunkRel cap last tail bd E)
+    (d : Bytes) (e : Option IOErr) (bd' : H1Body) (h : bd.read k = ((d, e), bd')) :
+    (e = none → ∃ E', E = d ++ E' ∧ ChunkRel cap last tail bd' E' ∧ (0 < k → d ≠ [])) ∧
+    (∀ x, e = some x → x = .eof ∧ E = d ∧ bd'.trailer = t ∧ bd'.br.rem = rest) := by
+  obtain ⟨cr, hsrc, hcre, hpos, hhdr, hsaw, hcl, hw, hf, hcap⟩ := hrel
+  obtain ⟨accR', cr', b', x, E', hrun, hp, hE, hpos', hw', hf', hcap', _, hxk, hprog⟩ :=
+    readLoop_spec cap last tail hl (Chunked.fuel k) cr bd.br k 0 [] E hpos hw hf hcap
+      (by have := posWeight_le cr; unfold Chunked.fuel; omega)
+  unfold H1Body.read at h
+  simp only [hcl, Bool.false_eq_true, if_false] at h
+  unfold H1Body.readLocked at h
+  simp only [hsaw, Bool.false_eq_true, if_false, hsrc] at h
+  unfold Chunked.read at h
+  simp only [hrun] at h
+  have hx : piecesBytes accR' = x := by simpa [piecesBytes] using hp
+  rw [hx] at h
+  generalize hrem' : b'.rem = rem' at hpos'
+  cases hpos' with
+  | done =>
+    -- the last chunk was reached in this call: read the trailer section, report EOF
+    obtain ⟨b2, hrt, hrem2⟩ := ht b' hrem' hw' hf' hcap'
+    simp only [hhdr, if_true, hrt] at h
+    simp only [Prod.mk.injEq] at h
+    obtain ⟨⟨rfl, rfl⟩, rfl⟩ := h
+    refine ⟨fun h0 => by simp at h0, ?_⟩
+    intro x' hx'
+    simp only [Option.some.injEq] at hx'
+    exact ⟨hx'.symm, by simpa using hE, rfl, hrem2⟩
+  | header cs hcs =>
+    simp only [Prod.mk.injEq] at h
+    obtain ⟨⟨rfl, rfl⟩, rfl⟩ := h
+    refine ⟨fun _ => ⟨_, hE, ⟨_, rfl, rfl, by rw [hrem']; exact CPos.header cs hcs, hhdr, rfl, hcl, hw', hf', hcap'⟩, ?_⟩, fun x' hx' => by simp at hx'⟩
+    intro hk hd0
+    have := hprog rfl hk hd0
+    simp at this
+  | footer cs hcs =>
+    simp only [Prod.mk.injEq] at h
+    obtain ⟨⟨rfl, rfl⟩, rfl⟩ := h
+    refine ⟨fun _ => ⟨_, hE, ⟨_, rfl, rfl, by rw [hrem']; exact CPos.footer cs hcs, hhdr, rfl, hcl, hw', hf', hcap'⟩, ?_⟩, fun x' hx' => by simp at hx'⟩
+    intro hk hd0
+    have := hprog rfl hk hd0
+    simp at this
+  | data d1 cs hd1 hcs =>
+    simp only [Prod.mk.injEq] at h
+    obtain ⟨⟨rfl, rfl⟩, rfl⟩ := h
+    refine ⟨fun _ => ⟨_, hE, ⟨_, rfl, rfl, by rw [hrem']; exact CPos.data d1 cs hd1 hcs, hhdr, rfl, hcl, hw', hf', hcap'⟩, ?_⟩, fun x' hx' => by simp at hx'⟩
+    intro hk hd0
+    have := hprog rfl hk hd0
+    simp at this
+
+theorem chunked_refines (cap : Nat) (last tail rest : Bytes) (t : Option Trailer)
+    (hl : LastOK cap last) (ht : TrailerOK cap tail rest t) :
+    RefinesR H1Body.read (ChunkRel cap last tail) (· = IOErr.eof) where
+  step_ok := by
+    intro bd E k d bd' hrel h
+    obtain ⟨E', hE, hrel', _⟩ := (chunked_read cap last tail rest t hl ht bd E k hrel d none bd' h).1 rfl
+    exact ⟨E', hE, hrel'⟩
+  step_end := by
+    intro bd E k d e bd' hrel h
+    obtain ⟨_, hE, _, _⟩ := (chunked_read cap last tail rest t hl ht bd E k hrel d (some e) bd' h).2 e rfl
+    exact ⟨⟨[], by simp [hE]⟩, fun _ => hE⟩
+
 end Req.C02
